@@ -526,10 +526,11 @@ def engines(tier, seed):
             run_text,
             kind="E1",
             rule="wallets = every 1<=m<=n<=4 (thorough 6) x {testnet, mainnet} x account index {0,1,2^31-2,2^31-1,mixed per cosigner} x SLIP-132 assignment "
-            "{std, {Zpub/Vpub, zpub/vpub (+Ypub/Upub, ypub/upub thorough)} x {all, canonical-first, canonical-last record}} x origin-path style {h, ', empty, long with 2^31-1, mixed} "
-            "(quick: account classes and version x path product crossed at account 0; thorough: version x path product at accounts 0 and 2^31-2, second key pool); keys from a deterministic walk "
-            "so that xfp order and child-key order are opposite to xpub order. Checks: str/key_records/network/checksum == reference (Core checksum, canonical order = "
-            "ascending standardised xpub), parse(text) == descriptor, and every one of the n! supply orders (2n rotations/reversals for n>=5 on non-base paths) gives the identical state. "
+            "{std, {Zpub/Vpub, zpub/vpub (+Ypub/Upub, ypub/upub thorough)} x {all, canonical-first, canonical-last record}} x origin-path style {h, ', empty, long with 2^31-1, mixed}. "
+            "Quick: account classes, version assignments and path styles each varied from the base wallet, version x path product on 1-of-2 and 2-of-3; thorough: account x version product on the "
+            "base path, version x path product at accounts 0 and 2^31-2, plus a second key pool with the quick scheme. Keys come from a deterministic walk so that xfp order and child-key order "
+            "are opposite to xpub order. Checks: str/key_records/network/checksum == reference (Core checksum; canonical record order = ascending standardised xpub, the library's documented "
+            "convention), parse(text) == descriptor, and every one of the n! supply orders (2n rotations/reversals for some 6-key wallets and for n>=5 on non-base paths) gives the identical state. "
             "Non-trivial = distinct wallet for construct/parse; supply order that is not already canonical",
         ),
         Engine(
